@@ -218,7 +218,7 @@ class Engine:
                 out.append((kind, tag, bs.hex()))
             elif kind == 'bool':
                 out.append((kind, tag, '1' if self._evb(m, val) else '0'))
-            elif kind in ('choose', 'kf'):
+            elif kind in ('choose', 'kf', 'bound'):
                 out.append((kind, tag, str(val)))
             else:
                 out.append((kind, tag, str(self._ev(m, val))))
@@ -249,7 +249,7 @@ class Engine:
         self.functions_encoded.add(fn.name)
         self.depth += 1
         if self.depth > 400:
-            raise ModelGap('call depth')
+            raise ModelGap('call depth in ' + fn.name)
         try:
             return self._exec(fn, args, ci)
         finally:
@@ -271,7 +271,12 @@ class Engine:
                     continue
                 self.steps += 1
                 if k == 'assign':
-                    self.store(fr, st[1], self.rvalue(fr, st[2]))
+                    v = self.rvalue(fr, st[2])
+                    if st[2][0] == 'discr' and st[1][0] == 'local':
+                        t = fn.locals.get(st[1][1])
+                        if t in WIDTH and t != v.t:
+                            v = mkint(t, v.v)
+                    self.store(fr, st[1], v)
                     continue
                 if k == 'goto':
                     bb = st[1]
